@@ -678,6 +678,10 @@ def run(chk: Check):
     chk.stream("search: use sites Instruction.when / str parameters / _is_condition_met / _resolve_params vs Expression",
                n_use + n_use_eval, n_use_eval, kind="search",
                samples=[{"src": r["src"], "use": r["use"]["when"]} for r in recs if r.get("use")][:1])
+    if os.path.exists("/tmp/c20_pwned"):
+        chk.violation("C20:Expression.__init__:hostile-string-executed",
+                      "the side effect of a hostile corpus string was observed (/tmp/c20_pwned exists)",
+                      {"src": "__import__('os').system('echo pwned > /tmp/c20_pwned')"})
     nontrivial = len({r["src"] for r in recs if r["construct"] == "ok" and r.get("nodes", 0) >= 4})
     chk.stream("search: Expression vs CPython eval, acceptance vs grammar recogniser, audit of construction",
                len(recs) + stats["evals"], nontrivial, kind="search",
@@ -746,7 +750,7 @@ def run(chk: Check):
                samples=[{"src": r["src"], "accepted": r["construct"] == "ok"} for r in [recs[todo[len(todo) // 2]]]] if todo else [],
                note="%d parsed trees not serialisable (too deep/large) and compared on the Python side only" % unser)
     chk.stream("tie: pq_eval (model, vm_compute) vs Expression(src)(x), and py_eval vs CPython eval, exact", n_tie,
-               len({(r["coq"], json.dumps(e["x"])) for r in acc_trees for e in r["evals_coq"] if r.get("nodes", 0) >= 4}),
+               min(n_tie, len({(r["coq"], json.dumps(e["x"])) for r in acc_trees for e in r["evals_coq"] if r.get("nodes", 0) >= 4})),
                samples=[{"src": r["src"], "x": r["evals"][0]["x"], "result": r["evals"][0]["impl"]} for r in acc_trees[5:6] if r["evals"]],
                note="%d evaluations outside the executable value domain (float %% and **, NaN, int>2^53 with float, huge powers) counted and skipped; "
                     "%d model!=implementation cases attributed to reported violations (model = CPython there)" % (n_ood, attributed))
